@@ -126,6 +126,23 @@ def mixed_corpus(r, n, tags=False):
     styles = ["sharp", "round", "round2", "dashed", "dashed2", "uni", "uniround", "double"]
     for i in range(n):
         kind = i % 8
+        if i % 5 == 4:
+            # structured families (added as the seeded changes showed what random grids hardly ever contain)
+            sub = (i // 5) % 6
+            words = ["".join(r.choice(LABELS[:10]) for _ in range(r.randint(1, 4))) for _ in range(r.randint(1, 3))]
+            if sub == 0:
+                out.append(scene(r, words))
+            elif sub == 1:
+                out.append(catalogue_scene(r, words))
+            elif sub == 2:
+                out.append(nested_grid(r, "-|+" + LABELS[:2]))
+            elif sub == 3:
+                out.append(comb_grid(r))
+            elif sub == 4:
+                out.append(walk_grid(r))
+            else:
+                out.append(random_grid(r, r.randint(3, 10), r.randint(2, 4), r.choice(["_‾¯ ", "▏▕|_‾ ", "_‾-= "]), 0.6))
+            continue
         if kind == 0:
             out.append(random_grid(r, r.randint(1, 14), r.randint(1, 8), FULL + LABELS[:6], r.choice([0.15, 0.4, 0.8])))
         elif kind == 1:
